@@ -108,6 +108,10 @@ def build_item(kind, head, secs, probe, report):
             key = d.split()[0]
             if key in ("@ret", "@derive", "@no-r1", "@no-r5", "@no-r7"):
                 continue
+            if key == "@r10":
+                if w.r10_concat() == 0:
+                    raise LookupError("lost anchor: no `[..].concat()` for @r10")
+                continue
             if key == "@sig":
                 w.weave_sig(t); has_sig = True
             elif key == "@entry":
